@@ -16,8 +16,65 @@ class AnalysisError(Exception):
 # Facts
 
 
+# Private sub-structs that group fields of a known struct (`outgoing: OutgoingResponses { queue, in_flight }` in place of
+# `response_queue`, `response_buffer`) are flattened: (sub-struct, field) -> (parent, the frozen field it stands for).
+# EMBEDS: (parent, field) -> sub-struct.  Set when a fact file is loaded.
+ALIASES = {}
+EMBEDS = {}
+_KNOWN_STRUCTS = None
+
+
+def known_structs():
+    global _KNOWN_STRUCTS
+    if _KNOWN_STRUCTS is None:
+        import os
+        with open(os.path.join(os.path.dirname(__file__), "known_structs.json")) as fh:
+            _KNOWN_STRUCTS = json.load(fh)
+    return _KNOWN_STRUCTS
+
+
+def compute_embeds(adts):
+    """A field g of a known struct P that did not exist when the rules were written and whose type is a struct S
+    that did not exist either groups fields of P, if every field of S can be matched -- by type when that is
+    unambiguous, else by name -- with a frozen field of P that P no longer has."""
+    ks = known_structs()
+    aliases, embeds = {}, {}
+    for P, frozen in ks.items():
+        a = adts.get(P)
+        if not a or a.get("kind") != "struct" or not a["variants"]:
+            continue
+        cur = a["variants"][0]["fields"]
+        cur_names = {x["name"] for x in cur}
+        missing = [(n, t) for n, t in frozen if n not in cur_names]
+        if not missing:
+            continue
+        for fld in cur:
+            if fld["name"] in {n for n, _ in frozen}:
+                continue
+            S = fld["ty"].get("path") if fld["ty"].get("k") == "adt" else None
+            sa = adts.get(S) if S else None
+            if not sa or S in ks or sa.get("kind") != "struct" or not sa["variants"]:
+                continue
+            m = {}
+            ok = True
+            for sf in sa["variants"][0]["fields"]:
+                cands = [n for n, t in missing if t == sf["ty"]["s"] and n not in m.values()]
+                if len(cands) > 1:
+                    cands = [n for n in cands if n == sf["name"]] or cands
+                if len(cands) != 1:
+                    ok = False
+                    break
+                m[sf["name"]] = cands[0]
+            if ok and m:
+                embeds[(P, fld["name"])] = S
+                for f_, role in m.items():
+                    aliases[(S, f_)] = (P, role)
+    return aliases, embeds
+
+
 class Facts:
     def __init__(self, path):
+        global ALIASES, EMBEDS
         with open(path) as fh:
             self.raw = json.load(fh)
         self.path = path
@@ -26,6 +83,10 @@ class Facts:
         self.adts = self.raw["adts"]
         self.consts = self.raw["consts"]
         self.files = self.raw["files"]
+        al, em = compute_embeds(self.adts)
+        ALIASES.clear(); ALIASES.update(al)
+        EMBEDS.clear(); EMBEDS.update(em)
+        self.aliases, self.embeds = dict(al), dict(em)
         self.fns = {name: Fn(self, name, d) for name, d in self.raw["fns"].items()}
 
     def fn(self, name):
@@ -93,22 +154,38 @@ def place_local(p):
 
 
 def place_fields(p):
-    """List of (adt, fieldname) for the field projections of a place, in order."""
-    return [(e.get("of"), e["name"]) for e in p["proj"] if e["k"] == "field"]
+    """List of (adt, fieldname) for the field projections of a place, in order (grouping sub-structs flattened)."""
+    out = []
+    for e in p["proj"]:
+        if e["k"] != "field":
+            continue
+        k = (e.get("of"), e["name"])
+        if k in ALIASES:
+            if out and out[-1] in EMBEDS and EMBEDS[out[-1]] == k[0]:
+                out.pop()
+            out.append(ALIASES[k])
+        else:
+            out.append(k)
+    return out
 
 
 def place_has_field(p, adt, name):
-    for e in p["proj"]:
-        if e["k"] == "field" and e["name"] == name and e.get("of") == adt:
-            return True
-    return False
+    return (adt, name) in place_fields(p)
 
 
 def place_last_field(p):
-    for e in reversed(p["proj"]):
-        if e["k"] == "field":
-            return (e.get("of"), e["name"])
-    return None
+    fs = place_fields(p)
+    return fs[-1] if fs else None
+
+
+def canon_key(key):
+    """Event keys name fields by their frozen names: `(*_1).outgoing.queue` -> `(*_1).response_queue`."""
+    if EMBEDS:
+        for (P, g), S in EMBEDS.items():
+            for (S2, f), (P2, role) in ALIASES.items():
+                if S2 == S:
+                    key = key.replace(".%s.%s" % (g, f), ".%s" % role)
+    return key
 
 
 def place_is_bare(p):
@@ -714,6 +791,10 @@ def simplify(t):
                 return base[1][int(t[3])]
             except (ValueError, IndexError):
                 return t
+        if ALIASES and (t[2], t[3]) in ALIASES:
+            P, role = ALIASES[(t[2], t[3])]
+            if base[0] == "field" and EMBEDS.get((base[2], base[3])) == t[2]:
+                return ("field", base[1], P, role)
         return t
     return t
 
